@@ -132,6 +132,11 @@ def _build_level(spec):
             d = collections.OrderedDict(d)
         return InMemoryPartition(d)
     p = OnDiskPartition()
+    if spec.get("reassign") and d:
+        # every key first holds one and the same value (equal values share one staged object), then gets its own
+        first = next(iter(d.values()))
+        for k in d:
+            p[k] = first
     for k, v in d.items():
         p[k] = v
     return p
